@@ -15,6 +15,9 @@ pub use metadata::*;
 pub use predicate::{PredicateLayout, PredicateVer, PredicateWrapper};
 pub use statement::{StatementVer, StatementWrapper};
 
+#[cfg(feature = "verif-hooks")]
+pub use envelope::DSSEVersion;
+
 #[cfg(test)]
 mod test {
     use once_cell::sync::Lazy;
